@@ -21,10 +21,10 @@ arithmetic or `Rn + c`; this covers `imm`, `label ± expr`, `[Rn + expr]`, `[exp
 `du_value_order_independent`: the same for the operand of `.du8/.du16/.du32`.
 `placeholder_length`: the 0xBE placeholder has the length of the final encoding.
 
-Why `plain`: the re-run evaluates the already evaluated sub-trees once more, and `evaluate` is NOT idempotent on its
-own output (`Simp.resumes_false`: `0 - (r1 - r0)` ↦ `-(r1 - r0)` ↦ `r0 - r1`), so for arbitrary trees the tree the
-re-run ends with can differ from the fresh one.  For constants it cannot (C08 `retry_commutes`: equal values whenever
-both are numbers).
+Why `plain` (history): the re-run evaluates the already evaluated sub-trees once more, and `evaluate` was NOT idempotent
+on its own output (`0 - (r1 - r0)` ↦ `-(r1 - r0)` ↦ `r0 - r1`; findings K4, K5), so the theorems of this file were proved
+for the class where that does not matter.  After the repairs `evaluate` is idempotent and Props/C08Full.lean proves the
+same statements for EVERY operand tree (`stmt_bytes_order_independent_full`, `du_value_order_independent_tree`).
 -/
 namespace Trion.Asm
 open Trion
